@@ -494,20 +494,25 @@ fn near_unit<T: Tier + Dom<M = Sh>, V: Inner<T, N>, const N: usize>(rep: &mut Re
 fn small_angle_n<T: Tier + Dom<M = Sh>, V: Inner<T, N>, const N: usize>(rep: &mut Report) {
     let steps: Vec<f64> = vec![2f64.powi(-3), 2f64.powi(-6), 2f64.powi(-9)];
     let nb = 3;
+    // (lengths of u, of v): a small angle together with short, long or very different lengths (the angle depends on neither)
+    let k = if T::NAME == "F" { 12 } else { 40 };
+    let scs: [(i32, i32); 5] = [(0, 0), (-k, -k), (k, k), (-k, k), (k / 2, -k / 2)];
     rep.cases(
         &format!("small-angle/{}", V::NAME),
         T::NAME,
-        &format!("3 generic u x steps {:?} x {N} directions x both signs: v = +-u + step * |u| * e_j (rounded): angles next to 0 and next to pi", steps),
-        nb * steps.len() * N * 2,
+        &format!("3 generic u x steps {:?} x {N} directions x both signs x lengths scaled by 2^{:?}: v = +-u + step * |u| * e_j (rounded): angles next to 0 and next to pi", steps, scs),
+        nb * steps.len() * N * 2 * scs.len(),
         Guard::states(6).distinct(6),
         |i, ctx| {
-            let d = alphabet::decode(i, &[nb, steps.len(), N, 2]);
+            let d = alphabet::decode(i, &[nb, steps.len(), N, 2, scs.len()]);
             let base = alphabet::generic(N, d[0]);
             let c = |x: f64| num_traits::cast::<f64, T>(x).unwrap();
-            let u: [T; N] = std::array::from_fn(|j| c(base[j].0 as f64 / base[j].1 as f64 / 3.0));
-            let ulen = u.iter().map(|x| x.f() * x.f()).sum::<f64>().sqrt();
+            let (su, sv) = (2f64.powi(scs[d[4]].0), 2f64.powi(scs[d[4]].1));
+            let u0: [f64; N] = std::array::from_fn(|j| base[j].0 as f64 / base[j].1 as f64 / 3.0);
+            let ulen = u0.iter().map(|x| x * x).sum::<f64>().sqrt();
             let sg = if d[3] == 0 { 1.0 } else { -1.0 };
-            let v: [T; N] = std::array::from_fn(|j| c(sg * u[j].f() + if j == d[2] { steps[d[1]] * ulen } else { 0.0 }));
+            let u: [T; N] = std::array::from_fn(|j| c(u0[j] * su));
+            let v: [T; N] = std::array::from_fn(|j| c((sg * u0[j] + if j == d[2] { steps[d[1]] * ulen } else { 0.0 }) * sv));
             ctx.describe(|| format!("{}<{}> u={:?} v={:?}", V::NAME, T::NAME, u, v));
             ctx.out(&d);
             let (mu, mv): ([Sh; N], [Sh; N]) = (lift_v(u), lift_v(v));
